@@ -56,7 +56,9 @@ def main():
         try:
             if kind == 'exec':
                 _, prop, scenario = task
+                S.cover = bool(scenario.get('cover'))
                 res = props.get(prop).execute(scenario, S)
+                S.cover = False
                 simmod.send_msg(proto_out, ('ok', res))
             elif kind == 'shrink':
                 _, prop, scenario, sig, budget = task
